@@ -139,4 +139,44 @@ theorem arith_result_dtype (sqrt : Rat → Rat) (c : DataCmd) (xs : List Arr) (r
         | [], _ :: _, hl => simp at hl
         | _ :: _, [], hl => simp at hl
 
+/-! ### Minimum ≤ Mean ≤ Maximum for whole fields -/
+
+/-- a bound of every value of a non-empty column bounds their mean -/
+theorem mean_between (l : List Rat) (hne : l ≠ []) (lo hi : Rat) (hlo : ∀ y ∈ l, lo ≤ y) (hhi : ∀ y ∈ l, y ≤ hi) :
+    lo ≤ l.sum / (l.length : Rat) ∧ l.sum / (l.length : Rat) ≤ hi := by
+  have hpos : (0 : Rat) < (l.length : Rat) := by
+    have : 0 < l.length := List.length_pos_of_ne_nil hne
+    exact_mod_cast this
+  have hs : ∀ (l : List Rat), (∀ y ∈ l, lo ≤ y) → (∀ y ∈ l, y ≤ hi) → lo * l.length ≤ l.sum ∧ l.sum ≤ hi * l.length := by
+    intro l
+    induction l with
+    | nil => intro _ _; simp
+    | cons x l ih =>
+      intro h1 h2
+      obtain ⟨i1, i2⟩ := ih (fun y hy => h1 y (List.mem_cons_of_mem _ hy)) (fun y hy => h2 y (List.mem_cons_of_mem _ hy))
+      have hx1 := h1 x List.mem_cons_self
+      have hx2 := h2 x List.mem_cons_self
+      simp only [List.sum_cons, List.length_cons, Nat.cast_add, Nat.cast_one]
+      constructor <;> nlinarith
+  obtain ⟨s1, s2⟩ := hs l hlo hhi
+  exact ⟨by rw [le_div_iff₀ hpos]; exact s1, by rw [div_le_iff₀ hpos]; exact s2⟩
+
+/-- **Minimum ≤ Mean ≤ Maximum, cell by cell, for whole fields and any inputs**: the three results are missing in the same cells, and ordered elsewhere -/
+theorem min_mean_max_exec (sqrt : Rat → Rat) (a : Arr) (t : List Arr) (rmin rmean rmax : Arr) (i : Nat)
+    (hmin : exec sqrt .minimum (a :: t) = .ok rmin) (hmean : exec sqrt .mean (a :: t) = .ok rmean) (hmax : exec sqrt .maximum (a :: t) = .ok rmax)
+    (hi : ∀ x ∈ a :: t, i < x.cells.length) :
+    ∃ c1 c2 c3, rmin.cells[i]? = some c1 ∧ rmean.cells[i]? = some c2 ∧ rmax.cells[i]? = some c3 ∧ c1.mask = c2.mask ∧ c2.mask = c3.mask ∧
+      (c1.mask = false → c1.val ≤ c2.val ∧ c2.val ≤ c3.val) := by
+  obtain ⟨c1, h1, m1, v1⟩ := minimum_cell sqrt a t rmin i hmin hi
+  obtain ⟨c2, h2, m2, v2⟩ := mean_cell sqrt a t rmean i hmean hi
+  obtain ⟨c3, h3, m3, v3⟩ := maximum_cell sqrt a t rmax i hmax hi
+  refine ⟨c1, c2, c3, h1, h2, h3, by rw [m1, m2], by rw [m2, m3], ?_⟩
+  intro hm
+  have hm2 : c2.mask = false := by rw [m2, ← m1]; exact hm
+  have hm3 : c3.mask = false := by rw [m3, ← m1]; exact hm
+  have hne : (column (a :: t) i).map (·.val) ≠ [] := by simp [column]
+  have hlen : (((a :: t).length : Nat) : Rat) = ((((column (a :: t) i).map (·.val)).length : Nat) : Rat) := by simp [column]
+  rw [v2 hm2, hlen]
+  exact mean_between _ hne c1.val c3.val (v1 hm).2 (v3 hm3).2
+
 end MPilot.C07
